@@ -78,7 +78,7 @@ fn gen_world(t: &mut Tape) -> WorldSpec {
     let mut writes = Vec::new();
     for upto in cuts {
         let split = if split_mode {
-            Some(match t.weighted(&[5, 3, 1]) {
+            Some(match t.weighted(&[10, 3, 1]) {
                 0 => SplitKind::NoMerge,
                 1 => SplitKind::Default,
                 _ => SplitKind::Replace,
